@@ -141,12 +141,15 @@ func c12RunDispatches(t rec.TB, r *rec.Rec, cs *c12CCase, c *world.Chain) {
 	senders := c12Senders(cs)
 	for _, d := range cs.Dispatches {
 		custom, _ := json.Marshal(map[string]json.RawMessage{d.Variant: d.Payload})
+		roles := map[string][]int{} // per network: which of its designated contracts (by position in the list) get past the guard
 		for _, chainID := range []string{"comdex-1", "comdex-test3", "testing"} {
 			passed := 0
 			for _, s := range senders {
-				designated := false
-				for _, a := range c12Designated[chainID] {
-					designated = designated || a == s.Addr.String()
+				designated, role := false, -1
+				for j, a := range c12Designated[chainID] {
+					if a == s.Addr.String() {
+						designated, role = true, j
+					}
 				}
 				cctx, _ := c.Ctx.CacheContext()
 				cctx = cctx.WithChainID(chainID)
@@ -181,6 +184,7 @@ func c12RunDispatches(t rec.TB, r *rec.Rec, cs *c12CCase, c *world.Chain) {
 				default:
 					if err != sdkerrors.ErrInvalidAddress {
 						passed++
+						roles[chainID] = append(roles[chainID], role)
 						if err == nil {
 							r.Class("contracts/designated-executed/" + d.Variant)
 						}
@@ -194,6 +198,18 @@ func c12RunDispatches(t rec.TB, r *rec.Rec, cs *c12CCase, c *world.Chain) {
 				}
 				r.NonTrivial(d.Variant + "/" + chainID)
 			}
+		}
+		// each message kind is designated to one contract of the network (the governance contract for parameters
+		// and white-lists, the locking contract for emissions and surplus funds), the same role on both networks:
+		// a handler that lets the network's other contract through, or another role on one network than on the
+		// other, accepts the message from a contract that is not designated for it
+		m1, t3 := fmt.Sprint(roles["comdex-1"]), fmt.Sprint(roles["comdex-test3"])
+		if len(roles["comdex-1"]) > 1 || len(roles["comdex-test3"]) > 1 {
+			r.Fail(t, "C12.contract-message-accepted-from-one-designated-contract", d.Variant, cs,
+				"%s gets past the sender guard from designated contracts %s on comdex-1 and %s on comdex-test3 (positions in the network's list)", d.Variant, m1, t3)
+		} else if m1 != t3 {
+			r.Fail(t, "C12.contract-message-same-designated-role-on-both-networks", d.Variant, cs,
+				"%s gets past the sender guard from designated contract %s on comdex-1 but %s on comdex-test3 (positions in the network's list)", d.Variant, m1, t3)
 		}
 	}
 }
